@@ -23,7 +23,7 @@ class C09(Check):
     technique = ("Coq theorems (table laws: what is stored under a key is found under it, other keys are independent cells, delete removes; structure members "
                  "are pairwise disjoint) + the real Python API against a bpf() stand-in and the REAL generated program in the Coq ISA model with hash maps, "
                  "exchanging the map contents in both directions")
-    trusted = ["coq/Ebpf/Isa.v (kernel-validated) + coq/Corr/C09.v (hash-map helper calls 1/2/3 as a wrapper around it; validated against the running kernel on every run by harness/hash_check.py when bpf() is permitted; an update of an existing key writes in place, so a pointer kept across an update of the same key differs from the kernel's copy-on-update)",
+    trusted = ["coq/Ebpf/Isa.v (kernel-validated) + coq/Corr/C09.v (hash-map helper calls 1/2/3 as a wrapper around it; validated against the running kernel on every run by harness/hash_check.py when bpf() is permitted; an update of an existing key installs a new element as the kernel does - a pointer kept across it writes to the old one)",
                "harness/sim_bpf.py (the user-space side of the same maps)"]
     assumptions = ["little-endian host"]
     known_classes = {}
